@@ -14,7 +14,7 @@ enum How {
     At(u64),
 }
 
-fn use_on<'a, S: UnwindContextStorage<usize>>(
+fn use_on<'a, S: UnwindContextStorage<usize> + PartialEq>(
     df: &DebugFrame<R<'a>>,
     bases: &BaseAddresses,
     fde: &FrameDescriptionEntry<R<'a>>,
@@ -29,7 +29,7 @@ fn use_on<'a, S: UnwindContextStorage<usize>>(
 }
 
 /// results on ONE reused context, and on a fresh context per use
-fn history<'a, S: UnwindContextStorage<usize>>(
+fn history<'a, S: UnwindContextStorage<usize> + PartialEq>(
     df: &DebugFrame<R<'a>>,
     bases: &BaseAddresses,
     fdes: &[FrameDescriptionEntry<R<'a>>],
